@@ -214,8 +214,8 @@ func checkC17(c *SubCase) (*ev.Failure, string) {
 				for _, os := range ownersOf(w)["Subscription."+sp.Field] {
 					rt.url = w.Services[os].URL
 				}
-			case <-time.After(3 * time.Second):
-				return ev.Failf("not-started", "subscription %s was not started upstream within 3s", sp.ID), ""
+			case <-time.After(20 * time.Second):
+				return ev.Failf("not-started", "subscription %s was not started upstream within 20s", sp.ID), ""
 			case <-conns[sp.Conn].HandlerDone:
 				return ev.Failf("not-started", "the gateway dropped the connection on a valid subscription start (%s)", sp.Op.Query), ""
 			}
@@ -224,8 +224,8 @@ func checkC17(c *SubCase) (*ev.Failure, string) {
 			case s := <-up.NewSub:
 				rt.up = s
 				rt.url, rt.query, rt.vars, rt.opName = s.URL, s.Req.Query, s.Req.Variables, s.Req.OperationName
-			case <-time.After(3 * time.Second):
-				return ev.Failf("not-started", "subscription %s was not started upstream within 3s", sp.ID), ""
+			case <-time.After(20 * time.Second):
+				return ev.Failf("not-started", "subscription %s was not started upstream within 20s", sp.ID), ""
 			case <-conns[sp.Conn].HandlerDone:
 				return ev.Failf("not-started", "the gateway dropped the connection on a valid subscription start (%s)", sp.Op.Query), ""
 			}
@@ -280,10 +280,10 @@ func checkC17(c *SubCase) (*ev.Failure, string) {
 			}
 		}
 		// the client must now receive exactly this event on this id (events are emitted one at a time)
-		f, ok := conns[sp.Conn].Next(5 * time.Second)
+		f, ok := conns[sp.Conn].Next(20 * time.Second)
 		if !ok {
 			if f.Err == "timeout" {
-				return ev.Failf("lost", "event %d of subscription %s (%s) was not delivered within 5s", k, sp.ID, trunc(sp.Op.Query, 150)), ""
+				return ev.Failf("lost", "event %d of subscription %s (%s) was not delivered within 20s", k, sp.ID, trunc(sp.Op.Query, 150)), ""
 			}
 			return ev.Failf("lost", "connection ended before event %d of subscription %s was delivered", k, sp.ID), ""
 		}
